@@ -451,3 +451,44 @@ pub fn short_key(k: &LedgerKey) -> String {
         other => format!("{:?}", other.discriminant()),
     }
 }
+
+// ------------------------------------------------------------------ native deployment through a factory
+
+use soroban_sdk::testutils::Register;
+use soroban_sdk::{BytesN, ConstructorArgs, IntoVal, Vec as SVec};
+
+/// Hash of the empty Wasm: the test host's marker for "natively registered contract".
+pub fn native_hash(env: &Env) -> BytesN<32> {
+    BytesN::from_array(
+        env,
+        &[
+            0xe3, 0xb0, 0xc4, 0x42, 0x98, 0xfc, 0x1c, 0x14, 0x9a, 0xfb, 0xf4, 0xc8, 0x99, 0x6f, 0xb9,
+            0x24, 0x27, 0xae, 0x41, 0xe4, 0x64, 0x9b, 0x93, 0x4c, 0xa4, 0x95, 0x99, 0x1b, 0x78, 0x52,
+            0xb8, 0x55,
+        ],
+    )
+}
+
+impl U {
+    /// Make `addr` dispatch to the native contract `c` once an instance is created there, without
+    /// leaving any ledger entry behind: register it (running its constructor with arguments that
+    /// are known to be valid) and then put the ledger back.
+    pub fn prime<C: Register, A: ConstructorArgs>(&mut self, addr: &Address, c: C, valid_args: A) {
+        let ck = self.checkpoint();
+        self.env.mock_all_auths_allowing_non_root_auth();
+        self.env.register_at(addr, c, valid_args);
+        self.env.set_auths(&[]);
+        self.restore(&ck);
+    }
+
+    /// Is there a contract instance at `addr`?
+    pub fn has_instance(&self, addr: &Address) -> bool {
+        let sc = sc_addr(addr);
+        self.snap().iter().any(|(k, _, _)| match k.as_ref() {
+            LedgerKey::ContractData(cd) => {
+                cd.contract == sc && matches!(cd.key, ScVal::LedgerKeyContractInstance)
+            }
+            _ => false,
+        })
+    }
+}
